@@ -28,3 +28,16 @@ claim('C10', 'proof',
 claim('C13', 'proof',
       "Contract of PrepareRead (either a version sampled from a word without X, or a shared grant taken by a CAS whose expected word had no lock bits at all) and of every CompositeGuard function.",
       TB + RG, "CBMC code contracts", "3 C13")
+
+ZB = "Machine arithmetic is machine arithmetic (bit-vectors, IEEE binary64 round-to-nearest); pow/log are uninterpreted with an assumed sign/NaN contract. "
+claim('C06', 'proof',
+      "Contracts of both operator()s proved with loop contracts incl. termination (decreases): result in [min,max], u <= GetCDF(v-min), GetCDF(v-min-1) <= u, for symbolic table sizes, all u in [0,1), all four integer types; table well-formedness is the proved post-condition of UpdateCDF (skolem index); default generators return 0; a bounded native sweep supplements the assumed libm facts.",
+      TB + ZB + "Approximate class: abstract CDF array justified by the proved determinism of GetCDF; monotonicity in the closed-form region assumed from libm; the table/closed-form seam is an explicit obligation (known finding); domain bounds listed in the evidence.",
+      "CBMC code contracts (loop invariants + decreases) on extracted C; skolemised table facts", "3 C06")
+claim('C18', 'other',
+      "Proved (unbounded): structural CDF obligations of both UpdateCDF functions -- size = bin count, last bin exactly 1.0, no NaN, non-decreasing prefix (skolem index), approximate last bin = 1 when the normaliser is finite. Bounded (labelled, never counted as proved): numeric agreement with Zipf's law, monotonicity into the pinned last bin, approx == exact for n <= 100 and the 0.01 closeness on a finite (n, alpha, type) grid against a long double reference.",
+      TB + ZB + "The real-analysis content of the property cannot be expressed in a CBMC contract; the slow approximate-table proofs (floating multiply/divide on SAT) run in the thorough tier only.",
+      "CBMC code contracts for the structure + bounded native numeric grid", "3 C18")
+claim('C19', 'proof',
+      "Empty frames (__CPROVER_assigns()) of both operator()s, GetCDF and GetHarmonicNum relative to *this, determinism of GetCDF (two evaluations agree), constructor contract 'throws iff max < min' with arithmetic-safety obligations, member-wise copy/move contracts; static AST facts (defaulted special members) re-checked on every run.",
+      TB + ZB + "uniform_real_distribution is stateless w.r.t. results (assumed libstdc++ fact).", "CBMC code contracts (frame conditions) + static AST facts", "3 C19")
